@@ -281,6 +281,15 @@ def _run_case(case: dict[str, Any], scratch: str, want_trace: bool) -> dict[str,
         if out != sorted(out) and out != sorted(out, key=_path_key):
             viol("C17/unsorted", {"result": rel(out)[:20]}, sch, only)  # type: ignore[index]
 
+    # ---- a resolve with *other* settings first (result discarded): the case's own resolves
+    # must not see anything it left behind in the process (a cache keyed by path only ...)
+    if sub_rng(case["run_seed"], "warmup").random() < 0.3:
+        s0 = case["settings"]
+        other = dict(s0, extend_include=["*.txt", "*.mdx"], exclude=[], extend_exclude=[], respect_gitignore=not s0["respect_gitignore"], force_exclude=not s0["force_exclude"], files_max_size=0)
+        _o, _e, ip_w, via_w = resolve_once(scratch, dict(case, settings=other, args=["."]), dict(sch0, arg_perm=[0], via="api"))
+        account(ip_w, via_w)
+        counters["warmups"] = 1
+
     # ---- each argument alone, native order: filter semantics against the reference walk
     solo_union: set[str] = set()
     solo_ok = True
@@ -329,6 +338,26 @@ def _run_case(case: dict[str, Any], scratch: str, want_trace: bool) -> dict[str,
                 viol("C17/combined-differs-from-union-of-single-argument-results", {"only_combined": sorted(os.path.relpath(p, scratch) for p in got - solo_union)[:10], "only_single": sorted(os.path.relpath(p, scratch) for p in solo_union - got)[:10], "args": args}, sch)
         elif results[0] is not None and results[-1] != results[0]:
             viol("C17/order-dependent", {"first": results[0][:20], "this": (results[-1] or [])[:20], "schedule": sch, "args": args}, sch)
+
+    # ---- history: an ignore file of the tree is deleted, then the same arguments again (same
+    # process): the answer must be the one for the tree as it is now
+    ign = [r for r, e in sorted(case["entries"].items()) if r.startswith("t/") and os.path.basename(r) in (".flowmarkignore", ".gitignore") and "txt" in e]
+    if ign and not violations and sub_rng(case["run_seed"], "edit").random() < 0.5:
+        victim = sub_rng(case["run_seed"], "edit2").choice(ign)
+        os.unlink(os.path.join(scratch, victim))
+        ref2 = c17model.Ref(scratch, case["settings"])
+        exp2 = ref2.expect(args)
+        out2, err2, ip2, via2 = resolve_once(scratch, case, dict(sch0, via="api"))
+        account(ip2, via2)
+        counters["ignore_file_edits"] = 1
+        if out2 is not None:
+            got2 = {os.path.realpath(p) for p in out2}
+            must2 = {p for p, (c, _, _) in exp2.items() if c == "MUST"}
+            may2 = {p for p, (c, _, _) in exp2.items() if c == "MAY"}
+            for p in sorted(got2 - must2 - may2)[:1]:
+                viol("C17/stale-after-ignore-file-removed/surplus", {"path": os.path.relpath(p, scratch), "removed": victim, "args": args}, sch0)
+            for p in sorted(must2 - got2)[:1]:
+                viol("C17/stale-after-ignore-file-removed/missed", {"path": os.path.relpath(p, scratch), "removed": victim, "args": args}, sch0)
 
     for p, (c, reason, kind) in expect.items():
         if c == "NO":
